@@ -17,16 +17,18 @@ TRUSTED_BASE = ['Coq 8.16.1 kernel; no axioms', 'hand-written model coq/Model/Bi
                 'the BMP reading convention used by the oracle (offset field @10, width @18, height @22, bpp @28, 4-byte aligned stride, bottom-up)',
                 'extraction + runner; harness tie/props/C06.py']
 ASSUMPTIONS = ['scan-line PackBits: no run or literal crosses a row boundary', 'background pixel value is 0']
-LEVEL_TEXT = ('Proof (partial): Coq theorems for the 8-bit and 1-bit decoders: every valid scan-line PackBits encoding (all '
+LEVEL_TEXT = ('Proof: Coq theorems for all four decoders. 8 and 1 bit: every valid scan-line PackBits encoding (all '
               'segmentations, token lists of literals and runs, induction over rows and tokens) and raw storage of an image of any '
-              'size paint exactly the source pixels at (w_padding, h_padding) and background elsewhere, under the stated geometry '
-              'condition (stored row fits the BMP stride: no pad-byte / pad-bit leak); lifted to the property\'s wording: a '
-              'standard BMP reader (offset, width, height, bpp fields, aligned stride, bottom-up) applied to the whole file sees '
-              'the source pixel at every canvas position (C06_bmp8_*_reader, C06_bmp1_*_reader). The 16- and 32-bit decoders are '
-              'modelled and compared with the implementation on every run, and the property is checked directly with an '
-              'independent BMP reader; the confirmed deviations are open known findings.')
-LEVEL_NOTE = ('Trusted: Coq kernel, hand-written model, extraction, harness (incl. its BMP reader). No axioms. 16/32-bit '
-              'pixel theorems are not proved (model + correspondence + direct oracle only).')
+              'size paint exactly the source pixels at (w_padding, h_padding) and background elsewhere (no geometry condition since '
+              'the repairs b668653 / 6c73b66). 32 bit: any segmentation of the linear stream; 16 bit: tokens confined to a colour '
+              'plane (the encodings of the quantifier); both for images without registration offsets. Each lifted to the '
+              'property\'s wording: a standard BMP reader (offset, width, height, bpp fields, aligned stride, bottom-up) applied '
+              'to the whole file sees the source pixel at every canvas position (C06_bmp8_*_reader, C06_bmp1_*_reader, '
+              'C06_bmp16_reader, C06_bmp24_reader). The model is compared with the implementation on every run and the '
+              'property is checked directly with an independent BMP reader; 16/32-bit registration offsets and raw storage '
+              'are open known findings.')
+LEVEL_NOTE = ('Trusted: Coq kernel, hand-written model, extraction, harness (incl. its BMP reader). No axioms. Outside the '
+              'theorems: 16/32-bit images with registration offsets or stored raw (open findings of /repo).')
 TECHNIQUE = 'Coq proof by induction over a PackBits encoding relation with a paint-state invariant + model/implementation correspondence'
 
 # ---------- encoders
